@@ -300,7 +300,9 @@ func r15_2(r *Report, p *Program) {
 	gate := false
 	for _, pa := range paths {
 		if len(pa.Ret) == 2 && E(pa.Ret[0]) != "false" && isNilConst(pa.Ret[1]) {
-			gate = pa.Has(true, func(a string) bool { return strings.Contains(a, "GetAPIVersion)(p2)") && strings.Contains(a, "p3.ResourceRule.APIVersion") }) &&
+			gate = pa.Has(true, func(a string) bool {
+				return strings.Contains(a, "GetAPIVersion)(p2)") && strings.Contains(a, "p3.ResourceRule.APIVersion")
+			}) &&
 				pa.Has(true, func(a string) bool { return strings.Contains(a, "GetKind)(p2)") && strings.Contains(a, "p4") })
 			if !gate {
 				break
